@@ -366,6 +366,7 @@ const char* modeName(unsigned m) {
 }
 
 struct Obs {
+  uint64_t async_rounds_enforced = 0;
   uint64_t rounds = 0, syncs = 0, async_rounds = 0, async_sync_calls = 0, cont_rounds = 0, nobitset_rounds = 0;
   uint64_t proxies_checked = 0, mirrors_checked = 0, masters_checked = 0, mirrors_not_readable = 0;
   uint64_t writes = 0, written_proxies = 0, written_mirrors = 0, nodes_written = 0, multi_contrib_nodes = 0;
@@ -414,8 +415,6 @@ int main(int argc, char** argv) {
     const long salt        = H.paramInt("salt", 0);
     const long onlyShape   = H.paramInt("shape", -1);
     const long onlyN       = H.paramInt("n", -1);
-    // experiment only (not used by the spec): drive the asynchronous loop under an enforced metadata mode as well
-    const bool asyncModes  = H.paramInt("asyncmodes", 0) != 0;
     const bool streaming   = H.paramInt("streaming", 1) != 0; // ginger/fennel/sugar policies
 
     for (long k = H.firstCase(); k < H.endCase(); ++k) {
@@ -457,9 +456,8 @@ int main(int argc, char** argv) {
       uint64_t rseed   = rng.next();
 
       ref::RefGraph G0 = ref::gen_shape(gseed, shape, n);
-      // inputs the partitioner itself does not survive are C19's subject, not ours: fewer nodes than hosts;
-      // an edge-less graph with a streaming policy (Fennel/Ginger/Sugar score is NaN when the graph has 0 edges)
-      if (G0.numNodes < np || (G0.numEdges() == 0 && scheme >= S_GINGER_O)) {
+      // fewer nodes than hosts is C19's subject, not ours
+      if (G0.numNodes < np) {
         G0    = ref::gen_shape(gseed, ref::Shape::Cycle, std::max<uint64_t>(np + 1, std::min<uint64_t>(n, 300)));
         shape = ref::Shape::Cycle;
       }
@@ -566,8 +564,9 @@ int main(int argc, char** argv) {
           }
           const FieldVT& F = fieldVT(c.field);
           if (!c.cont) {
-            // asynchronous execution: bitset, automatic metadata mode (see SPEC assumptions), idempotent reductions
-            const bool modeOK = mode == 0 || (asyncModes && mode != 4); // onlyData sends everything every call by design
+            // asynchronous execution: bitset, idempotent reductions; automatic or enforced bitset/offsets/gids metadata
+            // (enforced onlyData sends every value on every call by design: such a phase is never quiescent)
+            const bool modeOK = mode != 4;
             if (c.bitset && F.asyncOK && modeOK && rr.chance(1, 3))
               c.async = true;
             if (onlyAsync >= 0)
@@ -800,6 +799,8 @@ int main(int argc, char** argv) {
               }
             } while (dga.reduce(sub.get_run_identifier()));
             ++O.async_rounds;
+            if (mode != 0)
+              ++O.async_rounds_enforced;
             MPI_Barrier(g_comm); // DTerminationDetector.h: "caller will call getHostBarrier().wait() if required"
             if (log) { // notices that arrived after rank 0 left the loop
               int flag = 1;
@@ -1001,7 +1002,7 @@ int main(int argc, char** argv) {
                           std::to_string(threads) + "|" + modeName(mode) + (agnostic ? "|ag" : "") + "|" + roundSig;
         bool nontrivial = np >= 2 && O.cross_host_updates > 0;
         J o;
-        o.kv("rounds", O.rounds).kv("bsp_syncs", O.syncs).kv("async_rounds", O.async_rounds)
+        o.kv("rounds", O.rounds).kv("bsp_syncs", O.syncs).kv("async_rounds", O.async_rounds).kv("async_rounds_enforced_mode", O.async_rounds_enforced)
             .kv("async_sync_calls", O.async_sync_calls).kv("continuation_rounds", O.cont_rounds)
             .kv("nobitset_rounds", O.nobitset_rounds).kv("proxies_checked", O.proxies_checked)
             .kv("masters_checked", O.masters_checked).kv("mirrors_checked", O.mirrors_checked)
@@ -1017,7 +1018,8 @@ int main(int argc, char** argv) {
             .kv((std::string("cases_") + cls + (transposed ? "_transposed" : "")).c_str(), 1)
             .kv((std::string("cases_np") + std::to_string(np)).c_str(), 1)
             .kv((std::string("cases_policy_") + policyName(pc.policy)).c_str(), 1)
-            .kv("cases_agnostic", (int)agnostic).kv("partition_wall_s", tPart).kv("substrate_wall_s", tSub)
+            .kv("cases_agnostic", (int)agnostic).kv("cases_edgeless_streaming_policy", (int)(M == 0 && scheme >= S_GINGER_O))
+            .kv(("async_rounds_mode_" + std::string(modeName(mode))).c_str(), O.async_rounds).kv("partition_wall_s", tPart).kv("substrate_wall_s", tSub)
             .kv("rounds_wall_s", tRounds);
         if (k + 1 == H.endCase()) {
           pendingCase       = k;
